@@ -74,6 +74,9 @@ def _call(A, opt, seed):
     kw = {"n_eigenvecs": None if opt["k"] == 0 else opt["k"], "random_state": seed}
     if opt["method"] == "randomized_svd":
         kw["n_oversamples"] = opt["over"]
+        kw["n_iter"] = opt["niter"]
+    if opt["mask"] == "ones":
+        kw["mask"] = np.ones(A.shape)
     if opt["via"] == "direct":
         return getattr(tsvd, opt["method"])(A, **kw)
     method = economy_callable if opt["method"] == "callable" else opt["method"]
@@ -111,7 +114,7 @@ def _minq(x):
 
 
 def one_run(A, opt, seed):
-    out = {"method": opt["method"], "over": opt["over"], "k": opt["k"], "flip": opt["flip"], "nonneg": opt["nonneg"],
+    out = {"method": opt["method"], "over": opt["over"], "niter": opt["niter"], "mask": opt["mask"], "k": opt["k"], "flip": opt["flip"], "nonneg": opt["nonneg"],
            "via": opt["via"], "raised": False, "exc": "none", "shU": [], "shS": [], "shV": [], "S_q": [],
            "gU_q": 0, "gV_q": 0, "err2_q": 0, "pd_q": 0, "signs": [], "ties": [], "minU_q": 0, "minV_q": 0,
            "fin": {"S": False, "gU": False, "gV": False, "err2": False, "pd": False, "minU": False, "minV": False},
@@ -180,15 +183,24 @@ def execute(case):
 
 # ------------------------------------------------------------------------------------------ domain
 def all_opts(m, n, options):
+    """The option grid of SVDContract.AllOpts(m, n) (the trace spec's Coverage clause compares the two)."""
     out = []
     for meth in sorted(options["methods"]):
-        for over in (sorted(options["overs"]) if meth == "randomized_svd" else [5]):
-            for k in range(0, max(m, n) + 2):
-                for flip in sorted(options["flips"]):
-                    for nn in sorted(options["nonnegs"]):
-                        out.append({"method": meth, "over": over, "k": k, "flip": flip, "nonneg": nn, "via": "interface"})
-                if meth != "callable":
-                    out.append({"method": meth, "over": over, "k": k, "flip": "off", "nonneg": "off", "via": "direct"})
+        rand = meth == "randomized_svd"
+        for over in (sorted(options["overs"]) if rand else [5]):
+            for niter in (sorted(options["niters"]) if rand else [2]):
+                if niter != 2 and over not in (0, 5):
+                    continue
+                plain = niter != 2 or over not in (0, 5)
+                for k in range(0, max(m, n) + 2):
+                    base = {"method": meth, "over": over, "niter": niter, "mask": "off", "k": k}
+                    for flip in (["off"] if plain else sorted(options["flips"])):
+                        for nn in (["off"] if plain else sorted(options["nonnegs"])):
+                            out.append(dict(base, flip=flip, nonneg=nn, via="interface"))
+                    if meth != "callable":
+                        out.append(dict(base, flip="off", nonneg="off", via="direct"))
+                    if k != 0 and over == 5 and niter == 2:
+                        out.append(dict(base, mask="ones", flip="off", nonneg="off", via="interface"))
     return out
 
 
@@ -253,11 +265,11 @@ def run(chk, opts):
     chk.notes["domain_matrices"] = len(mats)
     chk.rule = ("exact tier: %d of the %d generalised permutation matrices of SVDContract (every (shape, #non-zeros, family) stratum, "
                 "seeded sample of <=%d per stratum), each with ALL option combinations (method x n_eigenvecs 1..max+1,None x "
-                "oversampling x flip x non_negative x via); measured tier: %d dense matrices; distinct = (shape, options) pairs"
+                "oversampling x n_iter x mask x flip x non_negative x via); measured tier: %d dense matrices; distinct = (shape, options) pairs"
                 % (n_exact, len(mats), per, len(cases) - n_exact))
     for e in events:
         for rr in e.get("runs", []):
-            chk.distinct.add((e["cfg"]["m"], e["cfg"]["n"], rr["method"], rr["over"], rr["k"], rr["flip"], rr["nonneg"], rr["via"]))
+            chk.distinct.add((e["cfg"]["m"], e["cfg"]["n"], rr["method"], rr["over"], rr["niter"], rr["mask"], rr["k"], rr["flip"], rr["nonneg"], rr["via"]))
     for e in events[:1] + events[-1:]:
         if "runs" in e:
             chk.sample(dict(e, runs=e["runs"][:3]))
@@ -292,11 +304,11 @@ def report(chk, ev, case, clause, rest):
         _violation(chk, ev["id"], clause, dict(case, opts=[]), dict(ev, runs=[]))
         return
     run_ = ev["runs"][ridx - 1]
-    opt = {k: run_[k] for k in ("method", "over", "k", "flip", "nonneg", "via")}
+    opt = {k: run_[k] for k in ("method", "over", "niter", "mask", "k", "flip", "nonneg", "via")}
     c = dict(case, opts=[opt], full=False, run=opt, derived=derived(ev["cfg"], opt))
     c["derived"]["negmean"] = bool(ev.get("negmean", sum(ev.get("data", [0])) < 0))
     c["derived"]["hasneg"] = bool(ev.get("hasneg", min(ev.get("data", [0])) < 0))
-    _violation(chk, "%s#%s-%s-k%d-o%d-%s-%s-%s" % (ev["id"], ridx, opt["method"], opt["k"], opt["over"], opt["flip"], opt["nonneg"], opt["via"]),
+    _violation(chk, "%s#%s-%s-k%d-o%d-i%d-%s-%s-%s-%s" % (ev["id"], ridx, opt["method"], opt["k"], opt["over"], opt["niter"], opt["mask"], opt["flip"], opt["nonneg"], opt["via"]),
                clause, c, dict(ev, runs=[run_]), {"degenerate_pair": bool(run_.get("degenerate"))})
 
 
